@@ -25,9 +25,47 @@ VOCAB_HEX = {n.encode().hex() for k in ("control", "action", "test") for n in _V
 _NODE = re.compile(r"\(([0-9a-f]+) A\[")
 
 
+FROZEN_TAGS = {c: set(ts) for c, ts in _VOCAB.get("tags", {}).items()}
+FROZEN_PARAMS = _VOCAB.get("tag_params", {})
+
+
+def foreign_tags(text, params=True):
+    """(command, tag) pairs of the script, by its own token structure, that the frozen vocabulary does not know"""
+    import oracle_generic
+    try:
+        toks = oracle_generic.tokenize(text)
+    except oracle_generic.GenericError:
+        return []
+    out, cur = [], None
+    for i, (kind, val) in enumerate(toks):
+        if kind == "id":
+            cur = val.decode("latin-1").lower()
+        elif kind == "tag" and cur is not None:
+            t = val.decode("latin-1").lower()
+            if t not in FROZEN_TAGS.get(cur, ()):
+                out.append((cur, t))
+                continue
+            pv = FROZEN_PARAMS.get(t) if params else None
+            if pv is not None:
+                # the token after the tag is its parameter: of an admitted kind and, where the set is closed, an admitted value
+                nk, nv = toks[i + 1] if i + 1 < len(toks) else ("end", b"")
+                kind_ok = (nk == "str" and "string" in pv["kinds"]) or (nk == "num" and "number" in pv["kinds"]) or (nk == "[" and "stringlist" in pv["kinds"])
+                if not kind_ok:
+                    out.append((cur, "%s followed by %s %r" % (t, nk, nv[:20])))
+                elif pv["values"] is not None and nv.decode("latin-1") not in pv["values"]:
+                    out.append((cur, "%s with the value %r" % (t, nv[:30])))
+    return out
+
+
 def judge(text, impl, wf):
     acc = impl.startswith("accept")
     rej = impl.startswith("reject")
+    if acc and b":" in text:
+        # the frozen tag vocabulary: a tag belongs to the command whose identifier precedes it (arguments come before nested tests)
+        # (parameters are judged on scripts the recogniser calls valid: a command cut short after a tag is outside the claim)
+        bad = foreign_tags(text, params=(wf == "valid"))
+        if bad:
+            return "a tag, or a value for a tag's parameter, outside the supported vocabulary is accepted: %s" % ", ".join("%s %s" % x for x in bad[:3])
     if acc:
         # the frozen vocabulary (spec/vocabulary.json, not derived from the code): a node whose name is not a word of the
         # supported language is an unknown command that was accepted
